@@ -43,13 +43,31 @@ CHECKS = {
  "C15": dict(design="5 (C15)", tech=SEQ,
    text="Static Head and Tail with limits 0..4, both flavours, capacities 16 and 1, initial vectors 0..3 (0..4 in the deep sweep): every sequence to depth 3 (quick) / 4 (thorough) on the full alphabet and 4/6 on the reduced one; the rebuilt view's length is compared with the limit after each individual diff (inside batches too) and for the initial values.",
    note="checked on the tap's per-diff replica; a wrong view with a legal length is C09's business"),
+ "C01": dict(design="4 (C01)", tech=SEQ,
+   text="Every sequence of setters (set, set_if_not_eq, set_if_hash_not_eq, take, update, update_if with all four mutate/answer combinations; three values of which two are different but hash-equal) on the unique Observable, on SharedObservable clones and through write guards, interleaved with every subscriber call (poll as Stream / next() / next_ref(), next_now, next_ref_now, get, read, reset, clone, clone_reset, drop) on up to 2-3 subscribers, to depth 4 (quick) / 5 (thorough) from 11 start states, in lock-step with a value/epoch model: every value handed out is the latest, a poll is Ready exactly when the model says an unobserved notifying update exists (or after reset), every setter returns and notifies exactly as stated, get/read never mark, next_now marks, clone copies.",
+   note="single-threaded (thread schedules are C02-C04's loom half); hash collisions of DefaultHasher not considered"),
+ "C02": dict(design="4 (C02)", tech=SEQ + " + " + LOOM, engine="seqmc+loom",
+   text="Operation granularity: in every enumerated history (depth 4/5, up to 3 subscribers) every subscriber whose last poll was Pending must have that poll's waker woken by the time a notifying update or the drop of the last owner returns - checked for every pending subscriber at once. Thread granularity: loom explores every interleaving (preemption bound 3 quick, unbounded thorough) of five programs in which subscriber threads block in next() on a park-style executor while another thread updates / drops; a lost wake-up is a deadlock that loom reports.",
+   note="loom half covers the sync flavour only; RwLock fairness not modelled (loom admits more schedules)"),
+ "C03": dict(design="4 (C03)", tech=SEQ + " + " + LOOM, engine="seqmc+loom",
+   text="History half: after every token of every history of clone / drop / downgrade / upgrade / into_shared / subscribe / set / poll (depth 4/5, up to 3 handles, 2 weak references) every subscriber is probed through a reset clone: Ready(None) exactly when no owner exists; get/read keep the last value after the end; upgrade succeeds exactly while an owner exists. Schedule half: loom explores all interleavings of two or three clones dropped on different threads, of the last drop racing with WeakObservable::upgrade, and of clone racing with drop; afterwards the stream must have ended (or be open while an upgraded owner lives).",
+   note="found the concurrent-last-drop defect repaired by repo commit ed96a5a"),
+ "C04": dict(design="4 (C04)", tech=LOOM + " + " + SEQ, engine="loom+seqmc",
+   text="Seven two-/three-thread programs on clones of one SharedObservable (set||set, update||update||get, set_if_not_eq twice, read guard vs set, write guard vs get/next_now, writer vs subscriber thread, subscribe vs set) explored over every interleaving (bound 3 quick, unbounded thorough); recorded invocation/response histories are checked by brute force against the sequential register specification, plus direct invariants (no lost increment, exactly one winner, monotone subscriber). The guard-exclusion facts are additionally enumerated sequentially with try_read/try_write probes under every guard kind.",
+   note="histories have <= 4 operations; loom's RwLock has no writer preference"),
+ "C16": dict(design="4 (C16)", tech=SEQ,
+   text="The C01-C04 sequential sweeps (values, wake-ups, handle histories, guard exclusion; depth 3-4 quick, 4-5 thorough) are run on Observable::new_async / SharedObservable::new_async and Subscriber<_, AsyncLock> through the same token language against the same reference model as the sync flavour; every async call is polled by a hand-rolled executor and must complete on its first poll when no guard is held.",
+   note="thread-level schedules of the async flavour are out of reach (tokio is not under loom); histories with guards held across other tasks are an extension listed in DESIGN"),
+ "C19": dict(design="4 (C19)", tech=SEQ,
+   text="After every token of every handle history (clone, subscribe, subscribe_reset, downgrade, weak clone, upgrade, into_shared, subscriber clone, every drop; up to 3 handles, 3 subscribers, 2 weak references; depth 4 quick / 5 thorough) observable_count, subscriber_count (both observable kinds), strong_count and weak_count are compared with the model, for both lock flavours.",
+   note="found the async-flavour double count repaired by repo commit 0ab6e9f"),
 }
 
 NOT_YET = "check not built yet (work in progress, see DESIGN.md section 12)"
 
 def main():
     ids = [json.loads(l)["id"] for l in open("/verif/properties.jsonl")]
-    hooks_commits = []
+    hooks_commits = ['441d561']
     m = {
       "version": 1,
       "setup_cmd": "./check setup",
@@ -61,6 +79,8 @@ def main():
         "add_only": True,
       },
       "engines": [
+        {"name": "loom", "path": "lm", "serves_properties": ["C02", "C03", "C04"],
+         "kind_free_text": "loom DPOR exploration of all thread interleavings of small concurrent programs on the real sync-flavour code compiled against loom-backed Arc/Weak/RwLock stand-ins (cfg eyeball_verif)"},
         {"name": "seqmc", "path": "mc", "serves_properties": sorted(CHECKS.keys()),
          "kind_free_text": "explicit enumeration of all operation/poll/configuration sequences up to a depth bound, executed on the real objects next to a reference model (stateless re-execution, iterative deepening, 16 workers)"},
       ],
